@@ -1,0 +1,36 @@
+//go:build verif
+
+package builder
+
+// VerifItem mirrors the unexported lexer item for the verification harness.
+type VerifItem struct {
+	Typ  int
+	Val  string
+	Line int
+}
+
+// VerifLex runs the lexer goroutine to completion and returns every item it sent.
+func VerifLex(input string) []VerifItem {
+	_, c := lex(input)
+	var out []VerifItem
+	for it := range c {
+		out = append(out, VerifItem{Typ: int(it.typ), Val: it.val, Line: it.line})
+	}
+	return out
+}
+
+// VerifDecodeString runs the string decoder on a string token
+// (including its quotes) and returns the runes it sent.
+func VerifDecodeString(tok string) []rune {
+	return decodeString(tok)
+}
+
+// VerifParseError reports whether err is the parser's own error type and, if so, the
+// line number and message it carries.
+func VerifParseError(err error) (line int, msg string, ok bool) {
+	e, ok := err.(*parseError)
+	if !ok {
+		return 0, "", false
+	}
+	return e.next.line, e.msg, true
+}
